@@ -19,7 +19,7 @@ import (
 func TestCheck(t *testing.T) {
 	r := ev.Start("C18")
 	defer r.Finish()
-	r.SetRule("stepped: case i = scripted fragment (i mod 16: I/O across CLOSE, downgrade vs. lock clone, re-registration, expiry with locks, unlinked open file, FREE_STATEID/RELEASE_LOCKOWNER with locks held, I/O across re-registration+expiry, I/O across downgrade, unconfirmed open-owner, both minor versions on one file, hostile state IDs, none, CLAIM_PREVIOUS x delegate type x owner-has-file-open x share access, one lock-owner through two open-owners of one file, OPEN parked inside the directory, request held in flight while the clock passes the lease without other traffic) for a client of minor version (i div 16) mod 2, surrounded by 15-80 PRNG-chosen steps of 2-3 clients, ended by orderly close or not, then expiry of every lease; stress: 3-7 concurrent clients each with a racing I/O worker. A case is non-trivial if it hit at least one named situation other than a refused hostile state ID; distinct = distinct sequences of (operation, variant, status).")
+	r.SetRule("stepped: case i = scripted fragment (i mod 16: I/O across CLOSE, downgrade vs. lock clone, re-registration, expiry with locks, unlinked open file, FREE_STATEID/RELEASE_LOCKOWNER with locks held, I/O across re-registration+expiry, I/O across downgrade, unconfirmed open-owner, both minor versions on one file, hostile state IDs, none, CLAIM_PREVIOUS x delegate type x owner-has-file-open x share access, one lock-owner through two open-owners of one file, OPEN parked inside the directory, request held in flight while the clock passes the lease without other traffic; in the expiry fragment the surviving client renews its lease only through READ, LOCKU or OPEN_DOWNGRADE with its own state IDs) for a client of minor version (i div 16) mod 2, surrounded by 15-80 PRNG-chosen steps of 2-3 clients, ended by orderly close or not, then expiry of every lease; stress: 3-7 concurrent clients each with a racing I/O worker. A case is non-trivial if it hit at least one named situation other than a refused hostile state ID; distinct = distinct sequences of (operation, variant, status).")
 	r.Assume("the fake directory and its instrumented regular files stand in for the virtual file system; opens and closes are counted where the NFS programs call VirtualOpenChild/VirtualOpenSelf/VirtualClose")
 	r.Assume("state table counts are read through the verif-tagged hook verif_state.go under the programs' own locks, at quiescent points only")
 	r.Assume("time only moves in explicit jumps of lease+2s on the virtual clock; a client counts as expired if it neither renewed in the middle of a jump nor had a request in flight that holds its record")
@@ -69,6 +69,11 @@ func TestCheck(t *testing.T) {
 		"request-in-flight-longer-than-the-lease":              10,
 		"request-in-flight-for-up-to-the-lease":                10,
 		"client-alive-after-request-held-across-clock-advance": 20,
+		"lease-renewed-only-by-state-bearing-request v=4.0":    8,
+		"lease-renewed-only-by-state-bearing-request v=4.1":    8,
+		"lease-renewed-only-by:READ v=4.0":                     2,
+		"lease-renewed-only-by:LOCKU v=4.0":                    2,
+		"lease-renewed-only-by:OPEN_DOWNGRADE v=4.0":           2,
 	} {
 		if r.ReplayFile() == "" {
 			r.Floor(name, min)
